@@ -106,7 +106,8 @@ class State:
             if ok:
                 return val.subs(sub, simultaneous=True) if sub else val
         if base in self.local_arrays and base not in self.alias:
-            raise AnalysisError(f"{self.ex.where}::{self.fname}: read of local array cell {base}{list(idx)} that was never written")
+            # a cell of a local array that no statement wrote: shows up in the closed form as uninitialised_<array>(...)
+            return sp.Function(f"uninitialised_{base}")(*idx)
         return sp.Function(self.alias.get(base, base))(*idx)
 
     def expr(self, e):
@@ -300,9 +301,9 @@ class State:
         a, b = cast.kids(init)
         var = _unwrap(a)["referencedDecl"]["name"]
         lo = self.expr(b)
-        if not (cond.get("kind") == "BinaryOperator" and cond.get("opcode") == "<" and _unwrap(cast.kids(cond)[0]).get("referencedDecl", {}).get("name") == var):
+        if not (cond.get("kind") == "BinaryOperator" and cond.get("opcode") in ("<", "<=") and _unwrap(cast.kids(cond)[0]).get("referencedDecl", {}).get("name") == var):
             raise AnalysisError(f"{self.ex.where}::{self.fname}: for-loop condition {cast.text(cond)}")
-        hi = self.expr(cast.kids(cond)[1])
+        hi = self.expr(cast.kids(cond)[1]) + (1 if cond.get("opcode") == "<=" else 0)
         if inc.get("kind") != "UnaryOperator" or inc.get("opcode") != "++":
             raise AnalysisError(f"{self.ex.where}::{self.fname}: for-loop increment")
         if lo.is_Integer and hi.is_Integer and hi - lo <= 32:
